@@ -118,7 +118,11 @@ class SmtLibSolver(Solver): # TODO this class is defined twice in pysmt. Here an
 
     def _get_answer(self):
         """Reads a line from STDOUT pipe"""
-        res = self.solver_stdout.readline().strip()
+        res = self.solver_stdout.readline()
+        # Skip blank lines, e.g. the end of the line of a value reply
+        while res != "" and res.strip() == "":
+            res = self.solver_stdout.readline()
+        res = res.strip()
         self._debug("Read: %s", res)
         return res
 
